@@ -8,6 +8,15 @@ CHECKS = {
    text="Seeded search over single coordination cycles: the real Coordinator.Run executes one runOnce against scripted sidecars inside a synctest bubble; every parallel request parks at the simulated transport and is released in PRNG order, map iteration order and math/rand are PRNG-controlled; oracles (no orphan, justified removal, no crash/deadlock) are evaluated on the request/response trace. Evidence, not proof: a clean batch says the sampled reports/orders hold.",
    note="Trusted: scripted sidecars produce only reports a real sidecar can produce; the overlay rewriter preserves Go's map-range semantics; testing/synctest; third-party map ranges are not controlled (determinism self-check at another GOMAXPROCS in every run)."),
 }
+_cyc_note="Trusted: scripted sidecars produce only reports a real sidecar can produce; the overlay rewriter preserves Go's map-range semantics; testing/synctest; third-party map ranges are not controlled (determinism self-check at another GOMAXPROCS in every run)."
+CHECKS["C04"]=dict(engine="cycle", design="5/C04", note=_cyc_note,
+  text="Seeded search over single coordination cycles of the real coordinator (scripted sidecars, PRNG-ordered request completion and map iteration). Oracle on the trace: load the destination reported + everything newly placed on it (weighed by the source's / explorer's report, most lenient source) stays strictly below both limits; unscraped oversized targets are never posted and never cause a scale request above the current count. Evidence, not proof.")
+CHECKS["C05"]=dict(engine="cycle", design="5/C05", note=_cyc_note,
+  text="Seeded search over single coordination cycles of the real coordinator over all generated source/destination report pairs (scrape counts 0,1,2,3,4,50 on either side, any health, any load order). Oracle: a newly marked in_transfer copy has a normal-state holder planned in the same cycle and vice versa; an in_transfer copy is dropped only when it and another in-sync holder both report >= 3 scrapes (README rule; the constant is not read from the code). Whole multi-cycle moves with real sidecars are covered by the world engine.")
+CHECKS["C07"]=dict(engine="cycle", design="5/C07", note=_cyc_note,
+  text="Seeded search over single coordination cycles; every ChangeScale argument of the cycle (early and final) is checked against bounds, the last shard that must stay (out of sync / holding / given a target this cycle / idle not expired on the fake clock) and the no-scale-down conditions. Evidence, not proof.")
+CHECKS["C08"]=dict(engine="cycle", design="5/C08", note=_cyc_note,
+  text="Seeded search over single coordination cycles with every subset of shards unready / failing either GET (503, refused, response lost) / hash differing with push accepted, ineffective, rejected, refused or lost / re-read failing; the complete per-shard request log is checked: no update to a shard that is not in sync by the harness' own definition, config push first and re-read after it, in-sync shards take part, reported targets of reachable unsynced shards are not assigned again.")
 
 NOT_YET = {
 }
